@@ -114,6 +114,19 @@ def parseOps (op : String) (args : List String) (_impl : String) : Option String
     match textOfHex t, parseChanges rest with
     | some text, some cs => some (incProp text cs)
     | _, _ => none
+  | "PROPINCTEXT", t :: rest =>
+    match textOfHex t, parseChanges rest with
+    | some text, some cs =>
+      some (match cs.foldl (fun (acc : Option (List Char)) c => acc.bind (fun t => replaceRange t c.lo c.hi c.text)) (some text) with
+        | none => "ok"
+        | some expected =>
+          match AnalyzedSource.new text with
+          | .error _ => "ok"
+          | .ok d =>
+            match d.update cs with
+            | .error _ => "ok"
+            | .ok u => if u.text == expected then "ok" else "bad:text")
+    | _, _ => none
   | "SPECDIAG", [t] =>
     (textOfHex t).map fun s =>
       match lex s with
